@@ -23,6 +23,8 @@ def shape(t):
         return 'if(%s,%s,%s)' % (shape(t['c']), shape(t['t']), shape(t['e']))
     if k == 'case':
         return 'case'
+    if k == 'exists':
+        return 'exists_in(%s,%s,%s)' % (shape(t['l']), shape(t['r']), t['retain'])
     if k == 'memb':
         return '%s#' % shape(t['ds'])
     if k == 'clause':
@@ -814,4 +816,18 @@ def random_caseds_units(rnd, n):
         if all(x.get('k') == 'const' for x in [w[1] for w in whens] + [e]):
             e = var('DS_3')
         units.append({'id': 'cs%d' % i, 'env': env, 'term': {'k': 'case', 'whens': whens, 'else': e}, 'cc': True})
+    return units
+
+
+def random_exists_units(rnd, n):
+    """exists_in over equal and nested identifier sets, every retain option, operands that are expressions"""
+    units = []
+    for i in range(n):
+        ids2 = [('Id_1', 'Integer'), ('Id_2', 'String')]
+        a_ids, b_ids = rnd.choice([(ids2, ids2), (ids2, ids2[:1]), (ids2[:1], ids2), (ids2[:1], ids2[:1])])
+        env = {'DS_1': gen.shuffled(rnd, gen.dataset(rnd, a_ids, [('Me_1', 'M', 'Integer')], rnd.choice([0, 2, 5, 9]), keyspace=3, null_p=0.2)),
+               'DS_2': gen.shuffled(rnd, gen.dataset(rnd, b_ids, [('Me_1', 'M', 'Integer'), ('Me_2', 'M', 'String')][:rnd.choice([1, 2])], rnd.choice([0, 2, 5, 9]), keyspace=3, null_p=0.2))}
+        l = rnd.choice([var('DS_1'), var('DS_1'), {'k': 'clause', 'op': 'filter', 'ds': var('DS_1'), 'items': [{'k': 'bin', 'op': '>', 'l': var('Me_1'), 'r': const(I(0))}]}])
+        r = rnd.choice([var('DS_2'), var('DS_2'), {'k': 'clause', 'op': 'filter', 'ds': var('DS_2'), 'items': [{'k': 'un', 'op': 'isnull', 'x': var('Me_1')}]}])
+        units.append({'id': 'ex%d' % i, 'env': env, 'term': {'k': 'exists', 'l': l, 'r': r, 'retain': rnd.choice(['default', 'all', 'true', 'false'])}, 'cc': True})
     return units
